@@ -151,3 +151,19 @@ Proof.
   split; [exact f_rem_valid|]. split; [exact f_neg_valid|]. split; [exact f_of_Z_valid|exact parse_f64_valid].
 Qed.
 Print Assumptions C09_number_operations_preserve_validity.
+
+(* every literal the lexer accepts is a valid binary64 number, and every valid number that is not an infinity or NaN prints *)
+Theorem C09_literals_are_valid_numbers : forall rest line file v n, consume_num rest line file = Ok (v, n) -> valid v.
+Proof. exact literal_valid. Qed.
+Print Assumptions C09_literals_are_valid_numbers.
+
+Theorem C09_valid_finite_numbers_print : forall x, valid x -> (forall s, x <> S754_infinity s) -> x <> S754_nan ->
+  exists s, to_bn_num x = Some s.
+Proof. exact valid_numbers_print. Qed.
+Print Assumptions C09_valid_finite_numbers_print.
+
+Theorem C09_finite_arithmetic_results_print : forall x y r, valid x -> valid y ->
+  r = f_add x y \/ r = f_sub x y \/ r = f_mul x y \/ r = f_div x y \/ r = f_rem x y \/ r = f_neg x ->
+  finite64 r -> exists s, to_bn_num r = Some s.
+Proof. exact arithmetic_results_print. Qed.
+Print Assumptions C09_finite_arithmetic_results_print.
